@@ -98,3 +98,18 @@ func (w *World) Stamp() int64 {
 	w.stamp++
 	return w.stamp
 }
+
+// ParkedRes lists the resource strings of the requests of one kind that are parked right
+// now (root only, at quiescence), sorted.
+func (w *World) ParkedRes(kind string) []string {
+	w.mu.Lock()
+	defer w.mu.Unlock()
+	var r []string
+	for _, e := range w.parked {
+		if e.kind == kind {
+			r = append(r, e.resName())
+		}
+	}
+	sort.Strings(r)
+	return r
+}
